@@ -1,4 +1,4 @@
 """C10 - requested layout normal forms are actually achieved (strip_whitespace, use_space_around_operators, reindent)."""
-from props import composite, C10_ws, C10_reindent
+from props import composite, C10_ws, C10_reindent, C10_aligned
 
-composite.make(globals(), [('ws', C10_ws), ('reindent', C10_reindent)])
+composite.make(globals(), [('ws', C10_ws), ('reindent', C10_reindent), ('aligned', C10_aligned)])
